@@ -33,6 +33,26 @@ def variants(rep, spec, base):
 	rep.count('variants-checked', 6)
 
 
+def visiting(rep, spec, py):
+	"""Documented sequence of events, evaluated on the real code: in each phase every node is processed exactly once per period;
+	orders are generated downstream-to-upstream (a node after all its successors), shipments upstream-to-downstream (after all its predecessors)."""
+	pos, edges, inE, outE = simlib.layout(spec)
+	n = len(pos)
+	succ = {i: [b for (a, b) in edges if a == i and b is not None] for i in range(n)}
+	pred = {i: [a for (a, b) in edges if b == i and a is not None] for i in range(n)}
+	bad = []
+	for name, seq, before in (('order phase', py['oseq'], succ), ('shipment phase', py['sseq'], pred)):
+		if sorted(seq) != list(range(n)):
+			bad.append('%s processed the nodes %s in period 0: not every node exactly once' % (name, [spec['labels'][i] for i in seq]))
+			continue
+		for k, i in enumerate(seq):
+			late = [j for j in before[i] if j not in seq[:k]]
+			if late:
+				bad.append('%s processed node %s before its %s %s' % (name, spec['labels'][i], 'successors' if name == 'order phase' else 'predecessors', [spec['labels'][j] for j in late]))
+	if bad:
+		rep.diff('sim-trace-full', 'documented sequence of events violated on the real code: ' + '; '.join(bad[:3]), spec, py={'oseq': py['oseq'], 'sseq': py['sseq']}, oracle=True, theorem=THEOREM)
+
+
 def run(rep, drv):
 	th = rep.tier == 'thorough'
 	rep.rule = ('full-trajectory equality (every documented state variable, visiting sequences, returned total) of the real simulator vs the '
@@ -43,9 +63,11 @@ def run(rep, drv):
 		spec = simlib.gen_spec(rng, th)
 		r = simstream.one_case(rep, drv, 'sim-trace-full', spec, None, None, THEOREM)
 		if r is not None:
+			visiting(rep, spec, r[0])
 			variants(rep, spec, r[0])
 
 def replay(rep, drv, doc):
 	r = simstream.one_case(rep, drv, 'sim-trace-full', doc['case'], None, None, THEOREM)
 	if r is not None:
+		visiting(rep, doc['case'], r[0])
 		variants(rep, doc['case'], r[0])
